@@ -167,6 +167,20 @@ def run(tier):
     bad2 = c02.subset_mechanism(recs, "quick", corrupt=renumber_final)
     expect("C02 hook trace with a target set altered / final automaton renumbered", bad.get("traces_not_a_behaviour", 0) >= 1 and bad2.get("final_automaton_differs", 0) >= 1,
            good.get("traces_not_a_behaviour", 1) == 0 and good.get("final_automaton_differs", 1) == 0 and good.get("traces", 0) >= 1, results)
+    # C08 mechanism: a recorded trace of the resolution-order search with one `ro_emit` dropped is not a behaviour of Resolve.tla;
+    # the model of the code before fix 4d45051 (RESOLVE_FIRSTONLY) reaches `unreachable!()` on some graph and rejects real traces
+    import c08
+
+    def drop_emit(cases):
+        for c in cases:
+            k = [i for i, e in enumerate(c["events"]) if e["ev"] == "ro_emit"]
+            if k:
+                del c["events"][k[0]]
+    good = c08.resolve_mechanism("quick", 1, core.Verdict("C08"), limit=150)
+    bad = c08.resolve_mechanism("quick", 1, core.Verdict("C08"), corrupt=drop_emit, limit=150)
+    old = c08.resolve_mechanism("quick", 1, core.Verdict("C08"), env={"RESOLVE_FIRSTONLY": "1"}, limit=150)
+    expect("C08 resolution-order trace with one emit dropped / model of the pre-fix cycle search", bad.get("traces_not_a_behaviour", 0) >= 1 and old.get("design_invariant_reports", 0) >= 1,
+           good.get("traces_not_a_behaviour", 1) == 0 and good.get("design_invariant_reports", 1) == 0 and good.get("traces", 0) >= 100, results)
     # C01/C12/C17 step level: a recorded step trace of the emitted bash function with one `subword_state` value altered is not a
     # behaviour of BashStep.tla
     import bashflow, bashdrv, vm, vmtrace
